@@ -21,13 +21,30 @@ def tlc_eval(cases, ev=None, label="KgEvalCases.tla"):
     cfg = os.path.join(d, "e.cfg")
     with open(cfg, "w") as f:
         f.write("INIT Init\nNEXT Next\nCHECK_DEADLOCK FALSE\n")
-    r = run_tlc(os.path.join(d, "KgEvalCases.tla"), cfg, workers=1, extra_env={"CASE_FILE": cf}, timeout=7200)
-    if ev is not None:
-        ev.add_tlc(label, r, "TLC evaluates KgEval.tla on every generated program (one state per program)")
     out = {}
-    for p in r.prints:
-        if isinstance(p, dict) and "id" in p:
-            out[p["id"]] = (bool(p["ok"]), p["val"])
+    todo = list(cases)
+    overflow = 0
+    while todo:
+        with open(cf, "w") as f:
+            json.dump(todo, f)
+        r = run_tlc(os.path.join(d, "KgEvalCases.tla"), cfg, workers=1, extra_env={"CASE_FILE": cf}, timeout=7200, tolerate_overflow=True)
+        if ev is not None:
+            ev.add_tlc(label, r, "TLC evaluates KgEval.tla on every generated program (one state per program)")
+        done = 0
+        for p in r.prints:
+            if isinstance(p, dict) and "id" in p:
+                out[p["id"]] = (bool(p["ok"]), p["val"])
+                done += 1
+        if not getattr(r, "overflow", False):
+            break
+        # cases are evaluated in order: the first one without a result left TLC's integer range - outside the domain
+        if done >= len(todo):
+            break
+        out[todo[done]["id"]] = (False, {"t": "e", "v": 0, "why": "integer overflow in TLC"})
+        overflow += 1
+        todo = todo[done + 1:]
+        if overflow > 200:
+            raise MachineryError("more than 200 programs overflow TLC's integers")
     if len(out) != len(cases):
         raise MachineryError(f"TLC evaluated {len(out)} of {len(cases)} programs")
     return out
